@@ -299,6 +299,22 @@ fn export<'tcx>(tcx: TyCtxt<'tcx>, want_mir: bool) -> J {
             o.push(("ret", s(sig.output().to_string())));
             o.push(("abi", s(format!("{:?}", sig.abi()))));
             o.push(("generic", J::Bool(tcx.generics_of(did).requires_monomorphization(tcx))));
+            // names of all generic parameters (parent's first), in the order of a call site's generic arguments
+            {
+                let mut names: Vec<J> = Vec::new();
+                let mut stack = Vec::new();
+                let mut g = Some(tcx.generics_of(did));
+                while let Some(gg) = g {
+                    stack.push(gg);
+                    g = gg.parent.map(|p| tcx.generics_of(p));
+                }
+                for gg in stack.iter().rev() {
+                    for p in gg.own_params.iter() {
+                        names.push(s(p.name.to_string()));
+                    }
+                }
+                o.push(("generics", J::A(names)));
+            }
             let attrs: Vec<J> = tcx
                 .get_all_attrs(did)
                 .iter()
